@@ -209,7 +209,7 @@ def unstring_annotation(node: ast.expr, ctx:'model.Documentable', section:str='a
     """
     try:
         expr = _AnnotationStringParser().visit(node)
-    except SyntaxError as ex:
+    except (SyntaxError, ValueError) as ex:
         module = ctx.module
         assert module is not None
         module.report(f'syntax error in {section}: {ex}', lineno_offset=node.lineno, section=section)
